@@ -55,6 +55,7 @@ type ScenCase struct {
 	AuthMD    []MD    `json:"auth_metadata"`
 	Calls     []SCall `json:"calls"` // after the leading auth call
 	Shared    bool    `json:"shared_client"`
+	TimeoutMs int     `json:"timeout_ms"`
 }
 
 var mdKeys = []string{"authorization", "x-login", "x-pass", "x-user", "x-trace", "x-lit", "x-src", "payload", "url", "body"}
@@ -89,6 +90,7 @@ func genScenCase(t *rapid.T) ScenCase {
 		Instances: rapid.IntRange(1, 4).Draw(t, "instances"),
 		Shared:    rapid.Bool().Draw(t, "shared"),
 	}
+	c.TimeoutMs = rapid.SampledFrom([]int{400, 1000, 3000}).Draw(t, "timeoutMs")
 	c.AuthMD = genMD(t, true)
 	n := rapid.IntRange(1, 3).Draw(t, "calls")
 	for i := 0; i < n; i++ {
@@ -203,7 +205,10 @@ func checkScen(c ScenCase, o *vf.Obs) error {
 	defer pand.Remove(name)
 	out := pand.TempName("c20s", ".phout")
 	defer pand.Remove(out)
-	gun := map[string]any{"type": "grpc/scenario", "target": tg.Addr(), "timeout": "2s"}
+	if c.TimeoutMs == 0 {
+		c.TimeoutMs = 2000
+	}
+	gun := map[string]any{"type": "grpc/scenario", "target": tg.Addr(), "timeout": fmt.Sprintf("%dms", c.TimeoutMs)}
 	pool := map[string]any{
 		"id": "p", "gun": gun,
 		"ammo":    map[string]any{"type": "grpc/scenario", "file": name, "limit": c.Shots},
@@ -249,6 +254,15 @@ func checkScen(c ScenCase, o *vf.Obs) error {
 	rowOf := map[string]int{}
 	for i := 0; i < c.Rows; i++ {
 		rowOf[fmt.Sprintf("login%d", i)] = i
+	}
+	for _, call := range calls {
+		// "within the configured timeout": every call carries a deadline no later than the gun's timeout
+		if !call.HasDeadline {
+			return fail("%s call arrived without a deadline although the gun's timeout is %dms", call.Method, c.TimeoutMs)
+		}
+		if call.Timeout > time.Duration(c.TimeoutMs)*time.Millisecond {
+			return fail("%s call arrived with %v left until its deadline, the gun's timeout is %dms", call.Method, call.Timeout, c.TimeoutMs)
+		}
 	}
 	for _, call := range calls {
 		if call.Method != "Auth" {
